@@ -23,6 +23,8 @@ C16 line-protocol driver.
                                  servers' listen / listen_protocols / sites.  <sites> = site;site;…  site = `.` (no
                                  bind) | bind,bind,…  bind = addr+addr/prot+prot (`-` = no protocols block)
                                                                             → `L=a,b P=<none|h1+h2,-> B=0,1|…` one per server
+  rename <n> <opts>              n sites on ports 8080+i and `servers :<port> { name … }` options (i:name,…): repeated
+                                 adaptation and "no server lost", oracle only                 → `oracle-only`
   perm <text> <seed>             \
   eqv <textA> <textB>             | oracle only, no model answer            → `oracle-only`
   leak <textP> <textT>           /
@@ -249,6 +251,15 @@ def handle : List String → String
     | _, _ => "bad-op"
   | ["adapt", t] => match hexField t with | some b => lexSummary b | none => "bad-op"
   | ["madapt", t] => match hexField t with | some b => lexSummary b | none => "bad-op"
+  | ["rename", n, opts] =>
+    match canonNat n with
+    | some k =>
+      if 1 ≤ k && k ≤ 6 && (opts == "." || (opts.splitOn ",").all fun o =>
+          match o.splitOn ":" with
+          | [i, nm] => (match canonNat i with | some j => decide (j < k) | none => false) && !nm.isEmpty &&
+              nm.toList.all (fun c => ('a' ≤ c && c ≤ 'z') || ('0' ≤ c && c ≤ '9'))
+          | _ => false) then "oracle-only" else "bad-op"
+    | none => "bad-op"
   | ["perm", t, seed] => if (hexField t).isSome && (canonNat seed).isSome then "oracle-only" else "bad-op"
   | ["eqv", a, b] => if (hexField a).isSome && (hexField b).isSome then "oracle-only" else "bad-op"
   | ["leak", a, b] => if (hexField a).isSome && (hexField b).isSome then "oracle-only" else "bad-op"
